@@ -794,24 +794,26 @@ def model_recipes(tier):
 NT = "non-trivial = >= 2 steps and (non-uniform dt or a per-step parameter that actually varies)"
 SUBS = [
     Sub(name="wiener", check=check_process, strategy=process_recipes("wiener"), quick=72, thorough=2400, shards=3,
-        jax=True,
+        jax=True, budget_quick=120.0,
         rule="wiener_process: mean == x0, L L^T == recursion (Q = sigma^2 dt) == kernel int_0^min sigma(t)^2 dt; "
              "generic / scalar generator fed (1, sigma sqrt(dt)) agrees; " + NT),
     Sub(name="integrated_wiener", check=check_process, strategy=process_recipes("iwp"), quick=96, thorough=3200,
-        shards=4, jax=True,
+        shards=4, jax=True, budget_quick=120.0,
         rule="integrated_wiener_process with asperity None / 0 / scalar / per-step: mean == x0 + v0 t, full 2(N+1) "
              "covariance == recursion (A=[[1,dt],[0,1]], Q=sigma^2[[dt^3/3+a dt, dt^2/2],[dt^2/2, dt]]) == kernel "
              "(closed form / Van Loan); generic generator fed (A_k, chol Q_k) has the same law; " + NT),
     Sub(name="ornstein_uhlenbeck", check=check_process, strategy=process_recipes("ou"), quick=72, thorough=2400,
-        shards=3, jax=True,
+        shards=3, jax=True, budget_quick=120.0,
         rule="ornstein_uhlenbeck_process: mean == x0 exp(-int gamma), covariance == recursion (A=e^{-gamma dt}, "
              "Q=sigma^2(1-e^{-2 gamma dt})) == kernel sigma^2(e^{-gamma|t-s|}-e^{-gamma(t+s)}) / Van Loan; "
              "scalar generator agrees path-wise; " + NT),
     Sub(name="generic", check=check_generic, strategy=generic_recipes, quick=96, thorough=3200, shards=2, jax=True,
+        budget_quick=120.0,
         rule="discrete_gauss_markov_process / scalar_gauss_markov_process with generated drift and diffamp (single "
              "matrix or sequence, scalars, rectangular diffamp) == NumPy evaluation of the docstring recursion; "
              "non-trivial = >= 2 steps, a per-step sequence, and (matrix mode) state dimension >= 2"),
     Sub(name="models", check=check_models, strategy=model_recipes, quick=96, thorough=1600, shards=4, jax=True,
+        budget_quick=120.0,
         rule="WienerProcess / IntegratedWienerProcess / OrnsteinUhlenbeckProcess with fixed, tuple-prior, user-model "
              "and default (OU steady state) parameters, scalar dt + N_steps or array dt, eager and jit: domain keys "
              "and shapes, model(x) == bare function at the same latent input, covariance w.r.t. all standard-normal "
